@@ -9,6 +9,7 @@ package decimal
 import (
 	"math/big"
 	"strconv"
+	"sync"
 )
 
 // ---- replay state (native only)
@@ -19,6 +20,35 @@ var vFailures []string
 var vAssumeBroken []string
 var vReached []string
 var vLastPanic interface{}
+
+// Race-mode replay (native only, C18): several goroutines run the same harness
+// on SHARED operands (vDec returns one object per name, except the receiver
+// "z") under the race detector. vShareOn is false in every symbolic run.
+var vShareOn bool
+var vShareMu sync.Mutex
+var vShareTab = map[string]*Decimal{}
+
+func vSharedDec(name string, frm, w, capx, prec int) *Decimal {
+	if name == "z" {
+		return vDec0(name, frm, w, capx, prec)
+	}
+	vShareMu.Lock()
+	defer vShareMu.Unlock()
+	if x, ok := vShareTab[name]; ok {
+		return x
+	}
+	x := vDec0(name, frm, w, capx, prec)
+	vShareTab[name] = x
+	return x
+}
+
+func vLocked(f func()) {
+	if vShareOn {
+		vShareMu.Lock()
+		defer vShareMu.Unlock()
+	}
+	f()
+}
 
 type vStop struct{}
 
@@ -53,7 +83,7 @@ func vU64(name string, lo, hi uint64) uint64 {
 		return lo
 	}
 	if !v.IsUint64() || v.Uint64() < lo || v.Uint64() > hi {
-		vAssumeBroken = append(vAssumeBroken, "range of "+name)
+		vLocked(func() { vAssumeBroken = append(vAssumeBroken, "range of "+name) })
 		panic(vStop{})
 	}
 	return v.Uint64()
@@ -65,7 +95,7 @@ func vI64(name string, lo, hi int64) int64 {
 		return lo
 	}
 	if !v.IsInt64() || v.Int64() < lo || v.Int64() > hi {
-		vAssumeBroken = append(vAssumeBroken, "range of "+name)
+		vLocked(func() { vAssumeBroken = append(vAssumeBroken, "range of "+name) })
 		panic(vStop{})
 	}
 	return v.Int64()
@@ -80,18 +110,18 @@ func vN(prefix string, i int) string { return prefix + strconv.Itoa(i) }
 
 func vAssume(c bool) {
 	if !c {
-		vAssumeBroken = append(vAssumeBroken, "vAssume")
+		vLocked(func() { vAssumeBroken = append(vAssumeBroken, "vAssume") })
 		panic(vStop{})
 	}
 }
 
 func vAssert(id string, c bool) {
 	if !c {
-		vFailures = append(vFailures, id)
+		vLocked(func() { vFailures = append(vFailures, id) })
 	}
 }
 
-func vReach(id string)       { vReached = append(vReached, id) }
+func vReach(id string)       { vLocked(func() { vReached = append(vReached, id) }) }
 func vConcI(x int64) int64   { return x }
 func vConcU(x uint64) uint64 { return x }
 func vIsConc(x int64) bool   { return true }
@@ -123,7 +153,7 @@ func vCatch(f func()) (kind int) {
 			if _, stop := r.(vStop); stop {
 				panic(r)
 			}
-			vLastPanic = r
+			vLocked(func() { vLastPanic = r })
 			if _, ok := r.(ErrNaN); ok {
 				kind = 1
 			} else {
